@@ -290,3 +290,31 @@ def h_circ_pump_direction(inp, body):
         (outcome != "returned" and (bool(net.converged) or any(v > 0 for v in numbers.values())))
     return {"reproduced": bool(bad), "observed": {"outcome": outcome, "net.converged": bool(net.converged),
                                                   "finite_result_entries": numbers}}
+
+
+def h_thermal_mix_weight(inp, body):
+    """two water streams of 370 K and 280 K mix in one junction (no heat losses): the junction
+    temperature must satisfy  sum_i m_i * (cp(T_i) + cp(T_n))/2 * (T_i - T_n) = 0"""
+    import pandapipes as pp
+    from scipy.optimize import brentq
+    net = pp.create_empty_network(fluid="water")
+    j = pp.create_junctions(net, 4, pn_bar=5, tfluid_k=300)
+    pp.create_ext_grid(net, j[0], p_bar=5, t_k=370.0)
+    pp.create_ext_grid(net, j[1], p_bar=5, t_k=280.0)
+    for a in (j[0], j[1]):
+        pp.create_pipe_from_parameters(net, a, j[2], 0.05, 0.1, k_mm=0.1, u_w_per_m2k=0.0)
+    pp.create_pipe_from_parameters(net, j[2], j[3], 0.05, 0.1, k_mm=0.1, u_w_per_m2k=0.0)
+    pp.create_sink(net, j[3], mdot_kg_per_s=3.0)
+    pp.pipeflow(net, mode="sequential", use_numba=bool(inp.get("use_numba")), tol_T=1e-9, max_iter_therm=100)
+    cp = net.fluid.get_heat_capacity
+    m = np.abs(net.res_pipe.mdot_from_kg_per_s.values[:2])
+    tin = net.res_pipe.t_to_k.values * 0 + np.nan
+    t_streams = np.array([370.0, 280.0])
+
+    def balance(tn):
+        return float(np.sum(m * (cp(t_streams) + cp(tn)) / 2 * (t_streams - tn)))
+    expected = brentq(balance, 280.0, 370.0, xtol=1e-12)
+    got = float(net.res_junction.t_k.values[2])
+    return {"reproduced": bool(abs(got - expected) > 1e-4),
+            "observed": {"t_mix_pandapipes": got, "t_mix_energy_balance": expected,
+                         "difference_k": got - expected, "mass_flows": m.tolist()}}
